@@ -25,6 +25,21 @@ fn replay_compute_mithril_stake_distribution_message() {
     certificate.protocol_message.set_message_part(ProtocolMessagePartKey::NextAggregateVerificationKey, "stale".to_string());
     certificate.protocol_message.set_message_part(ProtocolMessagePartKey::CurrentEpoch, "42".to_string());
 
+    // a registered party with stake 0 is still a registered (key, stake) pair: the client must derive the key every other node derives
+    let mut with_zero_stake = signers.clone();
+    with_zero_stake[4].stake = 0;
+    if let Ok(builder) = SignerBuilder::new(&with_zero_stake, &parameters) {
+        let expected_zero = ProtocolKey::new(builder.compute_aggregate_verification_key().to_concatenation_aggregate_verification_key().to_owned()).to_json_hex().unwrap();
+        let distribution = MithrilStakeDistribution {
+            signers_with_stake: SignerWithStakeMessagePart::from_signers(with_zero_stake.clone()),
+            protocol_parameters: parameters.clone(),
+            ..MithrilStakeDistribution::dummy()
+        };
+        let message = MessageBuilder::new().compute_mithril_stake_distribution_message(&certificate, &distribution).unwrap();
+        assert_eq!(message.get_message_part(&ProtocolMessagePartKey::NextAggregateVerificationKey), Some(&expected_zero),
+                   "client: with a zero-stake registered party the client derives another key than SignerBuilder on the same (key, stake) pairs");
+    }
+
     for reversed in [false, true] {
         let mut listed = signers.clone();
         if reversed { listed.reverse(); }
